@@ -104,7 +104,44 @@ def output_degree(ctx: Ctx):
             raise AnalysisError(f"OUTPUT-DEGREE: no return of {qname} could be evaluated as a decomposition")
 
 
+def _stmt_of(fnode, node):
+    for st in ast.walk(fnode):
+        if isinstance(st, ast.stmt) and not isinstance(st, (ast.FunctionDef, ast.If, ast.For, ast.While, ast.With, ast.Try)) and any(x is node for x in ast.walk(st)):
+            return st
+    return None
+
+
+def _dim_of(fnode, e, at):
+    """('dim', <array text>, i) when `e` is entry i of the shape of an array: shape(U)[i], U.shape[i],
+    a local bound to one of those, or the i-th target of `a, b = shape(U)`"""
+    from .state import _resolve_at
+
+    def shape_of(v):
+        if isinstance(v, ast.Attribute) and v.attr == "shape":
+            return src(v.value)
+        if isinstance(v, ast.Call) and call_name(v) == "shape" and v.args:
+            return src(v.args[0])
+        return None
+
+    r = _resolve_at(e, at, fnode)
+    if isinstance(r, ast.Subscript) and isinstance(r.slice, ast.Constant) and shape_of(r.value) is not None:
+        return ("dim", shape_of(r.value), r.slice.value)
+    if isinstance(e, ast.Name):
+        # tuple unpacking of a shape: nearest earlier one
+        best = None
+        for st in ast.walk(fnode):
+            if isinstance(st, ast.Assign) and isinstance(st.targets[0], ast.Tuple) and st.lineno <= at.lineno:
+                for i, t in enumerate(st.targets[0].elts):
+                    if is_name(t, e.id) and shape_of(st.value) is not None and (best is None or st.lineno > best[0]):
+                        best = (st.lineno, ("dim", shape_of(st.value), i))
+        if best:
+            return best[1]
+    return None
+
+
 def rank_clipped(ctx: Ctx):
+    from .state import _resolve_at
+
     repo, res = ctx.repo, ctx.res
     for q in SEQUENTIAL:
         f = repo.func(q)
@@ -112,48 +149,81 @@ def rank_clipped(ctx: Ctx):
         if not calls:
             raise AnalysisError(f"RANK-CLIPPED: no svd_interface call in {q}")
         assigns = [s for s in own_scope_nodes(f.node) if isinstance(s, ast.Assign)]
+        loop_rank_names = set()
+        for lp in own_scope_nodes(f.node):
+            if isinstance(lp, ast.For) and any(isinstance(n, ast.Name) and n.id == "rank" for n in ast.walk(lp.iter)):
+                loop_rank_names |= {n.id for n in ast.walk(lp.target) if isinstance(n, ast.Name)}
         for c in calls:
             ne = kwarg(c, "n_eigenvecs")
             if ne is None and len(c.args) >= 3:
                 ne = c.args[2]
+            at = _stmt_of(f.node, c)
             verdict, ok = "no n_eigenvecs", False
-            if isinstance(ne, ast.Name):
-                defs = [s.value for s in assigns if any(is_name(t, ne.id) for t in s.targets)]
-                mins = [d for d in defs if isinstance(d, ast.Call) and is_name(d.func, "min")]
-                if len(defs) == 1 and mins:
-                    m = mins[0]
-                    # the two sides of the unfolding and the requested rank
-                    pairs = []
-                    for s in assigns:
-                        tg = s.targets[0]
-                        if isinstance(tg, ast.Tuple) and len(tg.elts) == 2 and all(isinstance(e, ast.Name) for e in tg.elts):
-                            v = s.value
-                            if (isinstance(v, ast.Attribute) and v.attr == "shape") or (isinstance(v, ast.Call) and call_name(v) == "shape"):
-                                pairs.append({e.id for e in tg.elts})
-                    args_names = {a.id for a in m.args if isinstance(a, ast.Name)}
-                    shape_names = next((p for p in pairs if p <= args_names), set())
-                    # both sides of the unfolding: two names unpacked from its shape, or the shape itself starred
-                    starred_shape = any(isinstance(a, ast.Starred) and ((isinstance(a.value, ast.Attribute) and a.value.attr == "shape") or (isinstance(a.value, ast.Call) and call_name(a.value) == "shape")) for a in m.args)
-                    both_sides = (len(shape_names) == 2 and shape_names <= args_names) or starred_shape
-                    # the requested rank: rank[...] or the target of a loop over (something built from) rank
-                    loop_rank_names = set()
-                    for lp in own_scope_nodes(f.node):
-                        if isinstance(lp, ast.For) and any(isinstance(n, ast.Name) and n.id == "rank" for n in ast.walk(lp.iter)):
-                            loop_rank_names |= {n.id for n in ast.walk(lp.target) if isinstance(n, ast.Name)}
-                    has_rank = any((isinstance(a, ast.Subscript) and is_name(a.value, "rank")) or (isinstance(a, ast.Name) and a.id in loop_rank_names) for a in m.args)
-                    # the clipped number is the one the core is cut to: stored back into rank, or used in the core's reshape
-                    stored = any(isinstance(s.targets[0], ast.Subscript) and is_name(s.targets[0].value, "rank") and is_name(s.value, ne.id) for s in assigns)
-                    used_for_core = any(isinstance(c2, ast.Call) and call_name(c2) == "reshape" and len(c2.args) >= 2 and any(isinstance(n, ast.Name) and n.id == ne.id for n in ast.walk(c2.args[1])) for c2 in own_scope_nodes(f.node))
+            if ne is not None and at is not None:
+                full = _resolve_at(ne, at, f.node)
+                mat = c.args[0] if c.args else kwarg(c, "matrix")
+                if isinstance(full, ast.Call) and is_name(full.func, "min"):
+                    m = full
+                    # where the min was written (its own statement decides what n_row / n_column mean there)
+                    m_at = at
+                    if isinstance(ne, (ast.Name, ast.Subscript)):
+                        for s_ in assigns:
+                            if s_.lineno <= at.lineno and src(s_.targets[0]) == src(ne) and isinstance(s_.value, ast.Call) and is_name(s_.value.func, "min"):
+                                m_at = s_
+                    orig_args = m.args
+                    if m_at is not at and isinstance(m_at.value, ast.Call):
+                        orig_args = m_at.value.args
+                    dims = set()
+                    for a_ in orig_args:
+                        if isinstance(a_, ast.Starred):
+                            continue
+                        dm = _dim_of(f.node, a_, m_at)
+                        if dm is not None:
+                            dims.add(dm)
+                    starred_shape = any(isinstance(a_, ast.Starred) and ((isinstance(a_.value, ast.Attribute) and a_.value.attr == "shape") or (isinstance(a_.value, ast.Call) and call_name(a_.value) == "shape")) for a_ in orig_args)
+                    arrays = {d_[1] for d_ in dims}
+                    both_sides = starred_shape or any({("dim", arr, 0), ("dim", arr, 1)} <= dims for arr in arrays)
+                    has_rank = any(any(isinstance(n, ast.Name) and (n.id == "rank" or n.id in loop_rank_names) for n in ast.walk(a_)) for a_ in orig_args)
+                    # the clipped number is the one the core is cut to: it lives in rank[...] (read from or stored back),
+                    # or it is used in the core's reshape
+                    in_rank = isinstance(ne, ast.Subscript) and is_name(ne.value, "rank")
+                    stored = in_rank or (isinstance(ne, ast.Name) and any(isinstance(s_.targets[0], ast.Subscript) and is_name(s_.targets[0].value, "rank") and is_name(s_.value, ne.id) for s_ in assigns))
+                    used_for_core = isinstance(ne, ast.Name) and any(isinstance(c2, ast.Call) and call_name(c2) == "reshape" and len(c2.args) >= 2 and any(isinstance(n, ast.Name) and n.id == ne.id for n in ast.walk(c2.args[1])) for c2 in own_scope_nodes(f.node))
                     stored = stored or used_for_core
                     ok = both_sides and has_rank and stored
-                    verdict = f"min({', '.join(src(a) for a in m.args)}); stored back: {stored}"
-                else:
+                    verdict = f"min({', '.join(src(a_) for a_ in orig_args)}); both sides of the unfolding: {both_sides}; requested rank: {has_rank}; kept: {stored}"
+                elif isinstance(ne, ast.Name) and len([s_ for s_ in assigns if any(is_name(t, ne.id) for t in s_.targets)]) > 1:
                     verdict = f"`{ne.id}` is not a single min(...)"
-            elif ne is not None:
-                # TR's first SVD: a product of requested ranks, guarded by a raising test against min(rows, columns)
-                guards = [s for s in own_scope_nodes(f.node) if isinstance(s, ast.If) and any(isinstance(b, ast.Raise) for b in s.body) and isinstance(s.test, ast.Compare) and src(s.test.left) == src(ne) and isinstance(s.test.ops[0], ast.Gt) and isinstance(s.test.comparators[0], ast.Call) and is_name(s.test.comparators[0].func, "min") and s.lineno < c.lineno]
-                ok = bool(guards)
-                verdict = f"{src(ne)} guarded by `{src(guards[0].test)}`" if guards else f"{src(ne)} is not clipped and not guarded"
+                else:
+                    # TR's first SVD: a product of requested ranks, guarded by a raising test against min(rows, columns)
+                    want = src(full)
+                    guards = []
+                    for s_ in own_scope_nodes(f.node):
+                        if not (isinstance(s_, ast.If) and any(isinstance(b_, ast.Raise) for b_ in s_.body) and s_.lineno < c.lineno):
+                            continue
+                        t = s_.test
+                        neg = False
+                        while isinstance(t, ast.UnaryOp) and isinstance(t.op, ast.Not):
+                            t, neg = t.operand, not neg
+                        if not (isinstance(t, ast.Compare) and len(t.ops) == 1):
+                            continue
+                        l_, r_, op = t.left, t.comparators[0], t.ops[0]
+                        # normalise to `value > min(...)`
+                        forms = []
+                        if not neg and isinstance(op, ast.Gt):
+                            forms.append((l_, r_))
+                        if not neg and isinstance(op, ast.Lt):
+                            forms.append((r_, l_))
+                        if neg and isinstance(op, ast.LtE):
+                            forms.append((l_, r_))
+                        if neg and isinstance(op, ast.GtE):
+                            forms.append((r_, l_))
+                        for val, bound in forms:
+                            bound_r = _resolve_at(bound, s_, f.node)
+                            if src(_resolve_at(val, s_, f.node)) == want and isinstance(bound_r, ast.Call) and is_name(bound_r.func, "min"):
+                                guards.append(s_)
+                    ok = bool(guards)
+                    verdict = f"{src(ne)} guarded by `{src(guards[0].test)}`" if guards else (f"`{src(ne)}` is not a single min(...)" if isinstance(ne, ast.Name) else f"{src(ne)} is not clipped and not guarded")
             res.instance("RANK-CLIPPED", f"{f.name}: {src(c)[:60]}", sample={"line": c.lineno, "n_eigenvecs": src(ne) if ne is not None else None, "verdict": verdict, "ok": ok})
             if not ok:
                 ctx.finding("RANK-CLIPPED", f, c, f"{f.name}: the SVD at `{src(c)[:70]}` is not asked for min(rows, columns, requested rank) components ({verdict}): a core can then exceed the requested rank or the size of its unfolding, or the stored rank disagrees with the core's shape", construct=f"{f.name}: n_eigenvecs={src(ne) if ne is not None else None}")
